@@ -95,7 +95,7 @@ def run_build_case(rng, res: CaseResult, props, feat=None, inject=None, extra_st
         st = r['steps']
         witness = {'spec': spec, 'root': root, 'inject': injected}
         disc = compare_build(ref, st[0], parameter_mode)
-        if ref.error is None and st[0]['ok'] and st[1]['ok']:
+        if ref.error is None and st[0]['ok'] and st[1]['ok'] and set(st[0]['snapshot']['tasks']) == set(ref.tasks):
             disc += compare_closures(ref, st[0], st[1])
             res.count('closure_checks', 2 * len(ref.tasks))
         elif ref.error is None and st[0]['ok'] and not st[1]['ok']:
